@@ -4874,6 +4874,20 @@ fn process_relocation<'data, 'scope, A: Arch<Platform = Elf>, R: Relocation>(
             && flags.is_address()
         {
             if section_is_writable {
+                // A relative dynamic relocation rewrites a whole address-sized word, so it can only
+                // stand in for a relocation whose field is that wide.
+                if !matches!(
+                    rel_info.size,
+                    linker_utils::elf::RelocationSize::ByteSize(8)
+                ) {
+                    bail!(
+                        "Relocation {} on a {} field cannot be used when making a \
+                        position-independent output. Please recompile with -fPIC or link with \
+                        -no-pie",
+                        A::rel_type_to_string(r_type),
+                        rel_info.size,
+                    );
+                }
                 // Odd offsets mean bitmaps in RELR, so we need to fall back to RELA for them.
                 if resources.symbol_db.args.is_relr_enabled()
                     && relr_eligible(rel.offset(), section.sh_addralign(LittleEndian))
